@@ -214,7 +214,6 @@ def wsa_scoped(n, cur="0"):
 
 PROBES = {
     "finally": "auto s = finally(just(1), just()); (void)blocking(s);",
-    "via": "auto s = via(just(1), inline_scheduler{}); (void)blocking(s);",
     "let_value": "auto s = let_value(just(1), [](int&) { return just(2); }); (void)blocking(s);",
 }
 PROBE_HDR = """#include <unifex/just.hpp>
@@ -313,6 +312,12 @@ class TypedPart:
                 i = int(lines[k].split()[1])
                 cov["sanitizer_aborts"] = cov.get("sanitizer_aborts", 0) + 1
                 what = {"t": "printing the traits of", "b": "evaluating blocking(s) on", "d": "running"}[lines[k][0]]
+                if lines[k][0] == "b":
+                    # stable site: error kind + the first library header in the report
+                    import re
+                    kind = site.split(" in ")[0]
+                    hs = [h for h in re.findall(r"/include/unifex/([A-Za-z0-9_/]+\.hpp):\d+", err2) if h not in ("tag_invoke.hpp", "blocking.hpp")]
+                    site = f"blocking(s) aborts with {kind}" + (f" in {max(set(hs), key=hs.count)}" if hs else "")
                 verdict.add(f"{self.name}: {site}", f"the program aborted while {what} {exprs[i]}",
                             dict(stream=self.name, expr=exprs[i], command=lines[k], sanitizer_report=err2), found_input=True)
             for idx, (i, e) in enumerate(items):
